@@ -492,13 +492,17 @@ func main() {
 		"race-detector reports are evidence only")
 	r.MinShapes(40)
 
-	seqCases := r.N(1500, 40000)
-	seqOps := r.N(80, 160)
-	concCases := r.N(160, 2400)
+	seqCases := r.N(1500, 20000)
+	seqOps := r.N(80, 120)
+	concCases := r.N(160, 1600)
 	concOps := r.N(120, 250)
 
 	t0 := time.Now()
-	r.Parallel(seqCases, func(c *vk.Case) { sequentialCase(r, c, seqOps) })
+	r.Parallel(seqCases, func(c *vk.Case) {
+		if c.Idx < seqCases { // (a replayed concurrent case has a larger index)
+			sequentialCase(r, c, seqOps)
+		}
+	})
 	tSeq := time.Since(t0).Seconds()
 	// concurrent rounds: a few at a time so that the clients of a round really run in parallel
 	if r.ReplayCase < 0 || r.ReplayCase >= seqCases {
